@@ -145,7 +145,7 @@ def property_obligations(pid: str) -> dict:
             closed += 1
         elif b.startswith('Axioms:'):
             for line in b.splitlines()[1:]:
-                m = re.match(r'^([A-Za-z_][\w.\']*)\s*:', line)
+                m = re.match(r'^([A-Za-z_][\w.\']*)\s*(?::|$)', line)   # the type may start on the next line
                 if m and m.group(1) not in axioms:
                     axioms.append(m.group(1))
     return {
